@@ -960,6 +960,37 @@ impl World {
     }
 }
 
+/// Allowlist edit history before a request under test: `entry` (an allowlist entry string such as
+/// "address:...") is on the allowlist when this is called.  kind % 7: 0 nothing; 1 remove([entry]);
+/// 2 remove([entry, absent]); 3 remove([absent, entry]); 4, 5, 6 = 2, 3, 1 followed by a restart of
+/// the signer from its store (plain memory-store worlds).  `absent` is a well-formed entry that was
+/// never added.  Returns whether `entry` must still count as allowlisted afterwards (only for
+/// kind 0: a removal request that is answered Ok removes every entry it lists, for good).
+pub fn allowlist_edit(w: &mut World, entry: &str, absent: &str, kind: u8) -> bool {
+    let k = kind % 7;
+    if k == 0 {
+        return true;
+    }
+    let list: Vec<String> = match k {
+        1 | 6 => vec![entry.to_string()],
+        2 | 4 => vec![entry.to_string(), absent.to_string()],
+        _ => vec![absent.to_string(), entry.to_string()],
+    };
+    let node = w.node.clone();
+    let r = w.txn(|| call(|| node.remove_allowlist(&list))).0;
+    if !r.is_ok() {
+        // a refused removal removes nothing
+        return true;
+    }
+    if k >= 4 && w.cloud.is_none() && w.backup.is_none() {
+        let r = w.restart();
+        if !r.is_ok() {
+            panic!("harness: restart after an allowlist edit failed: {}", r.err_msg());
+        }
+    }
+    false
+}
+
 /// witscripts for the phase-1 entry points, in output order
 pub fn witscripts(chan: &Chan, secp: &Secp256k1<All>, tx: &CommitmentTransaction, holder_is_broadcaster: bool) -> Vec<Vec<u8>> {
     let params = chan.params();
